@@ -17,7 +17,7 @@ def warm():
 def run(tier: str) -> int:
     out = Outcome(PID, tier)
     wd = workdir(PID)
-    fams = ["A3", "A4o"]
+    fams = ["A3", "A4o", "DAG5o"]
     mcs = [sc.mc(wd, f)[0] for f in fams]
     gens = [sc.tables(wd, f)[0] for f in fams]
     recs = [r for g in gens for r in g["recs"]]
@@ -26,7 +26,7 @@ def run(tier: str) -> int:
     extra = {"generated": 0, "distinct": 0}
     if tier == "thorough":
         extra = sc.tables(wd, "A4")[0]
-        recs = gens[0]["recs"] + extra["recs"] + r5["recs"]
+        recs = gens[0]["recs"] + extra["recs"] + r5["recs"] + gens[2]["recs"] + sc.tables(wd, "B5o")[0]["recs"]
     n_orders = 2
     stats, fails = sc.replay(wd, "ci", recs, n_orders)
     seen = set()
@@ -47,8 +47,12 @@ def run(tier: str) -> int:
         "exhaustive": True,
         "size_limits": ["None", 0, 1, 2, 3, "n", "n+1"],
         "policies": ["topological (default)", "len_lex"],
+        "history_replays": stats.get("grow_steps", 0),
         "distinct_nontrivial": sum(1 for r in recs if r["g"]["b"] and any(m[2] not in (0, 99) for m in r["min"])),
-        "rule": "one call = (ADMG, size limit k, retention policy, insertion order); expected: exactly one canonical, "
+        "rule": "one call = (ADMG, size limit k, retention policy, insertion order); families: all 3-node ADMGs, all topologically "
+                "numbered 4-node ADMGs, all 1024 topologically numbered 5-node DAGs, seeded 5-node ADMGs (thorough: all labelled "
+                "4-node ADMGs, 6380 sparse 5-node ADMGs with one bidirected edge); the second insertion order replays SepMachine's "
+                "Grow action on one object (list, add an edge in place, list again); expected: exactly one canonical, "
                 "true, minimum-size judgement for every pair whose minimum separator size (MinSizes in Separation.tla) "
                 "is within the limit; the limit is accepted inclusive or exclusive (statement does not fix it); "
                 "non-trivial = graph with bidirected edge and a pair that needs a non-empty separator",
